@@ -298,7 +298,12 @@ func (s *InmemStore) Reset(frame *Frame) error {
 	s.lastConsensusEvents = map[string]string{}
 
 	//Set Roots from Frame
-	s.roots = frame.Roots
+	// copy the map: the store adds Roots for participants that join later, and
+	// must not alter the Frame it was reset from (which it keeps and may serve)
+	s.roots = make(map[string]*Root, len(frame.Roots))
+	for p, root := range frame.Roots {
+		s.roots[p] = root
+	}
 
 	for round, ps := range frame.PeerSets {
 		if err := s.SetPeerSet(round, peers.NewPeerSet(ps)); err != nil {
